@@ -35,7 +35,10 @@ RT_LIT = [("0s", 0), ("1s", 10**9), ("5m", 300 * 10**9), ("2h", 7200 * 10**9), (
 RT_B = [0, 1, -1, 999999, 10**6, 1500 * 10**6, -1500 * 10**6, 10**9, -10**9, 10**9 - 1, 10**9 + 1, 64 * 10**9, 86400 * 10**9,
         9223372036 * 10**9, 2**63 - 1, -2**63, -2**63 + 1, 2**55, 2**62]
 TIME_B = [(0, 0), (1, 0), (-1, 0), (0, 999999999), (1758800000, 5), (2**31, 0), (253402300799, 0), (-U2I, 0), (-U2I - 86400 * 366, 0),
-          (2**33, 1), (4102444800, 0), (951782400, 0), (-2**31, 500)]
+          (2**33, 1), (4102444800, 0), (951782400, 0), (-2**31, 500),
+          # leap-day boundaries: 2000-02-29, 2024-02-29 12:00, 1900-02-28 23:59:59 / 1900-03-01, 2100-02-28 / 2100-03-01, year 0000
+          (951782400 + 86399, 0), (1709208000, 0), (-2203891201, 0), (-2203891200, 0), (4107456000, 0), (4107542400, 0), (-62167219200, 0),
+          (253402300799, 999999999), (-1577923200, 0)]
 IP_B = [None, (4, 0x01020304), (4, 0x0A010203), (4, 0), (4, 0xFFFFFFFF), (6, 1), (6, 0x20010DB8 << 96 | 1), (6, (1 << 128) - 1),
         (6, 0x20010DB8 << 96 | 1 << 64), (6, 1 << 112 | 1 << 16)]
 
